@@ -4,7 +4,7 @@ from lib.engine import Family
 from lib.gen import *
 from lib.apigen import *
 
-THEOREMS = ["rtcp_roundtrip", "trailer_fields"]
+THEOREMS = ["cipher_encrypt_involutive", "protect_rtcp_wire", "rtcp_wire_trailer", "rtcp_round_trip_fun", "rtcp_round_trip", "rtcp_protect_unprotect"]
 TRUSTED_BASE = ["Coq 8.16.1 kernel", "tools/gen_constants.py", "extraction (ExtrOcamlBasic) + harness/mdrv.ml",
                 "harness/cdrv*.c driving srtp_protect_rtcp / srtp_unprotect_rtcp (ASan/UBSan)", "Gallina AES / SHA-1 / HMAC",
                 "modelled not verified: the SRTCP paths of srtp/srtp.c"]
